@@ -103,6 +103,10 @@ func corsContainerW(cfg *corsCfg, cnt *corsCounters, second *restful.CrossOrigin
 			cors.AllowedDomainFunc = func(string) bool { return false }
 		case "always":
 			cors.AllowedDomainFunc = func(string) bool { return true }
+		case "exactlc":
+			// case-sensitive: accepts one spelling only (generated next to a non-empty list: there the filter asks
+			// about the origin as it was sent)
+			cors.AllowedDomainFunc = func(o string) bool { return o == "https://shop.example.com" }
 		case "toggle":
 			cors.AllowedDomainFunc = func(o string) bool {
 				return togglePred.predMode == "suffix" && strings.HasSuffix(strings.ToLower(o), ".example.com")
@@ -213,7 +217,8 @@ func validHeaderValue(s string) bool {
 			return false
 		}
 	}
-	return strings.TrimSpace(s) == s
+	// SP / HTAB around a value are stripped by the HTTP parser: what is logged would not be what is sent
+	return strings.Trim(s, " \t") == s
 }
 
 func runCorsCfg(tw *traceWriter, cfg corsCfg, reqs []corsReq) {
@@ -360,7 +365,11 @@ func runCorsConc(tw *traceWriter, rounds int) {
 }
 
 func mutateOrigin(r *rand.Rand, base string) string {
-	switch r.Intn(13) {
+	switch r.Intn(15) {
+	case 13: // white space the HTTP parser does not strip (only SP and HTAB are optional white space)
+		return pick(r, []string{"\u00a0", "\u2003", "\u0085"}) + base
+	case 14:
+		return base + pick(r, []string{"\u00a0", "\u2003", "\u0085"})
 	case 0:
 		return strings.ToUpper(base)
 	case 1:
@@ -445,6 +454,10 @@ func runCors(planPath, outPath string, seed int64) {
 		if r.Intn(8) == 0 {
 			cfg.Domains = append(cfg.Domains, ".*")
 		}
+		exactPred := false
+		if len(cfg.Domains) > 0 && r.Intn(4) == 0 {
+			cfg.Pred, exactPred = "exactlc", true
+		}
 		switch r.Intn(3) {
 		case 1:
 			cfg.Methods = []string{"GET"}
@@ -471,6 +484,9 @@ func runCors(planPath, outPath string, seed int64) {
 			base := pick(r, append(append([]string{}, domPool...), "https://x.example.com", "http://example.com"))
 			if len(cfg.Domains) > 0 && r.Intn(2) == 0 {
 				base = pick(r, cfg.Domains)
+			}
+			if exactPred && r.Intn(3) == 0 {
+				base = pick(r, []string{"https://shop.example.com", "https://Shop.example.com", "HTTPS://SHOP.EXAMPLE.COM", "https://shop.Example.com"})
 			}
 			switch x := r.Intn(10); {
 			case x < 1:
